@@ -251,6 +251,10 @@ pub fn run(pc: &PropCtx) {
     let ml_cases = pc.tier.pick(45_000, 450_000);
     pc.run_tape("multi_line_faults", ml_cases, (128, 1500), gen_case_ml, check);
     pc.require_class("multi_line_faults:multi_line", ml_cases as u64 / 4);
+    if pc.tier == crate::runner::Tier::Thorough {
+        pc.run_fuzz("C16:line_mode_faults", 150_000, 12000, &|v| replay(pc, "line_mode_faults", v).unwrap_or(Verdict::Reject("unreadable")));
+        pc.run_fuzz("C16:multi_line_faults", 150_000, 6000, &|v| replay(pc, "multi_line_faults", v).unwrap_or(Verdict::Reject("unreadable")));
+    }
     pc.require_class("line_mode_faults:stop_at_context", cases as u64 / 20);
     pc.require_class("line_mode_faults:stop_at_break", cases as u64 / 40);
     pc.require_class("line_mode_faults:read_faults_injected", cases as u64 / 10);
